@@ -19,6 +19,8 @@ from lib.ctx import MachineryError
 
 HERE = os.path.dirname(os.path.dirname(os.path.abspath(__file__)))
 
+SEEN = set()
+
 def plans_from_tlc(out):
     plans = []
     for line in out.splitlines():
@@ -40,51 +42,55 @@ def plan_ops(plan):
     return [dict(short(s["o"]), ret=s["ret"], why=s["why"]) for s in plan]
 
 def run_workers(ctx, mode, items, nproc, label):
-    """Run harness/pydrv/c13_index.py children over `items` (one JSON per line). Returns list of (item index, result)
-    and reports crashes."""
+    """Run harness/pydrv/c13_index.py children over `items` (one JSON per line). Returns list of (item index, result).
+    A child that dies while an item runs (assertion / sanitizer abort in the library) yields the result
+    dict(key="replay:crash") for that item; the rest of its share is run by a fresh child."""
     L = build.lib("asan")
     env = build.asan_env(); env["VERIF_LIBLZMA"] = L["so"]; env["PYTHONPATH"] = HERE
     env["ASAN_OPTIONS"] = env.get("ASAN_OPTIONS", "") + ":detect_leaks=0"
-    chunks = [list(range(c, len(items), nproc)) for c in range(nproc)]
-    procs = []
-    for c, idxs in enumerate(chunks):
-        if not idxs:
-            continue
-        src = os.path.join(ctx.workdir, "%s.%d.in" % (label, c)); dst = os.path.join(ctx.workdir, "%s.%d.out" % (label, c))
-        with open(src, "w") as f:
-            for i in idxs:
-                f.write(json.dumps(items[i]) + "\n")
-        p = subprocess.Popen([sys.executable, "-m", "harness.pydrv.c13_index", mode, src, dst], cwd=HERE, env=env,
-                             stdout=subprocess.PIPE, stderr=subprocess.STDOUT, text=True)
-        procs.append((p, idxs, dst))
     results = []
-    for p, idxs, dst in procs:
-        try:
-            out, _ = p.communicate(timeout=1500)
-        except subprocess.TimeoutExpired:
-            p.kill(); out, _ = p.communicate()
-            out += "\n(timeout)"
-        begun = -1; done = {}
-        if os.path.exists(dst):
-            for line in open(dst):
-                try:
-                    d = json.loads(line)
-                except ValueError:
-                    continue
-                if "begin" in d: begun = d["begin"]
-                if "done" in d: done[d["done"]] = d["res"]
-        for n, i in enumerate(idxs):
-            if n in done:
-                results.append((i, done[n]))
-        if p.returncode == 77:
-            raise MachineryError("%s worker: harness error\n%s" % (label, out[-3000:]))
-        if p.returncode != 0:
-            if begun >= 0 and begun not in done:
-                # the library aborted (assertion / sanitizer) while this item ran: the code took a step the
-                # model has no counterpart for
-                results.append((idxs[begun], dict(step=-1, key="replay:crash", detail=out[-3000:])))
-            else:
-                raise MachineryError("%s worker failed outside an item: rc=%s\n%s" % (label, p.returncode, out[-3000:]))
+    pending = [list(range(c, len(items), nproc)) for c in range(nproc)]
+    rounds = 0
+    while any(pending) and rounds < 8:
+        rounds += 1
+        procs = []
+        for c, idxs in enumerate(pending):
+            if not idxs:
+                continue
+            src = os.path.join(ctx.workdir, "%s.%d.%d.in" % (label, c, rounds)); dst = src[:-3] + ".out"
+            with open(src, "w") as f:
+                for i in idxs:
+                    f.write(json.dumps(items[i]) + "\n")
+            p = subprocess.Popen([sys.executable, "-m", "harness.pydrv.c13_index", mode, src, dst], cwd=HERE, env=env,
+                                 stdout=subprocess.PIPE, stderr=subprocess.STDOUT, text=True)
+            procs.append((c, p, idxs, dst))
+        pending = [[] for _ in pending]
+        for c, p, idxs, dst in procs:
+            try:
+                out, _ = p.communicate(timeout=1500)
+            except subprocess.TimeoutExpired:
+                p.kill(); out, _ = p.communicate()
+                out += "\n(timeout)"
+            begun = -1; done = {}
+            if os.path.exists(dst):
+                for line in open(dst):
+                    try:
+                        d = json.loads(line)
+                    except ValueError:
+                        continue
+                    if "begin" in d: begun = d["begin"]
+                    if "done" in d: done[d["done"]] = d["res"]
+            for n, i in enumerate(idxs):
+                if n in done:
+                    results.append((i, done[n]))
+            if p.returncode == 77:
+                raise MachineryError("%s worker: harness error\n%s" % (label, out[-3000:]))
+            if p.returncode != 0:
+                if begun >= 0 and begun not in done:
+                    results.append((idxs[begun], dict(step=-1, key="replay:crash", detail=out[-3000:])))
+                    pending[c] = idxs[begun + 1:]
+                else:
+                    raise MachineryError("%s worker failed outside an item: rc=%s\n%s" % (label, p.returncode, out[-3000:]))
     results.sort(key=lambda x: x[0])
     return results
 
@@ -103,7 +109,7 @@ def gen_walks(ctx, nproc, walks, depth, cfg="GenIndexSim.cfg"):
 
 def replay_index(ctx, plans, label, nproc=4):
     res = run_workers(ctx, "index", plans, nproc, label)
-    seen = set(); bad = 0
+    seen = SEEN; bad = 0
     for i, r in res:
         ctx.case(key=("plan", json.dumps(plan_ops(plans[i]))))
         if r:
@@ -113,8 +119,9 @@ def replay_index(ctx, plans, label, nproc=4):
             seen.add(r["key"])
             ops = plan_ops(plans[i])
             ctx.violation(r["key"], "step %d (%s): %s" % (r["step"], json.dumps(ops[r["step"]]) if r["step"] >= 0 else "?", r["detail"]),
-                          dict(kind="index_plan", ops=ops[:r["step"] + 1] if r["step"] >= 0 else ops, mismatch=r))
-    if len(res) != len(plans):
+                          dict(kind="index_plan", ops=ops[:r["step"] + 1] if r["step"] >= 0 else ops, mismatch=r,
+                               history=[st["o"] for st in plans[i][1:]]))
+    if len(res) != len(plans) and not bad:
         raise MachineryError("replay %s: %d of %d plans accounted for" % (label, len(res), len(plans)))
     ctx.add_traces(len(plans))
     ctx.log("replayed %d plans / %d calls (%s): %d differ" % (len(plans), sum(len(p) for p in plans), label, bad))
@@ -140,7 +147,11 @@ def make_files(ctx, nfiles, ndamaged):
                                 check=rng.choice([0, 1, 4, 10]), preset=rng.choice([0, 1]), block_size=bs, pad=pad))
         it = dict(id=n, streams=streams, seed=rng.randrange(1 << 30), path=os.path.join(ctx.workdir, "fi_%d.xz" % n))
         if dmg:
-            it["damage"] = dict(kind=rng.choice(["backward", "unpadded"]), stream=rng.randrange(ns), delta=rng.choice([4, 8, -4]))
+            it["damage"] = dict(kind=rng.choice(["backward", "unpadded", "oddpad"]), stream=rng.randrange(ns), delta=rng.choice([4, 8, -4]))
+            if it["damage"]["kind"] == "oddpad":
+                if ns < 2:
+                    streams.append(dict(streams[0], seed=rng.randrange(1 << 30)))
+                streams[-1]["pad"] = rng.choice([2, 6, 10]); streams[-2]["pad"] = rng.choice([2, 6, 8190])
         items.append(it)
     return items
 
@@ -230,7 +241,9 @@ def file_info(ctx, nfiles, ndamaged, budget_events):
     for i, r in runs:
         it = items[i]
         if "key" in r:       # crash of the library while this file was decoded
-            ctx.violation("fileinfo:crash", r["detail"], dict(kind="file", item=it["streams"], damage=it.get("damage")))
+            if "fileinfo:crash" not in seen:
+                seen.add("fileinfo:crash")
+                ctx.violation("fileinfo:crash", r["detail"], dict(kind="file", item=it["streams"], damage=it.get("damage")))
             continue
         nblocks += r["blocks"]
         for key, detail in r["problems"]:
@@ -300,8 +313,20 @@ def generate_plans(ctx):
         rs = list(ex.map(one, zip(jobs, seeds)))
     return rs
 
+def replay_file(ctx):
+    """./check C13 --replay FILE: re-evaluate the recorded call history with the model and replay it."""
+    d = json.load(open(ctx.replay))
+    h = (d.get("replay") or {}).get("history")
+    if not h:
+        raise MachineryError("replay file has no index history (only index plans can be replayed)")
+    plans = eval_histories(ctx, [h], "replay")
+    replay_index(ctx, plans, "replay", nproc=1)
+    return ctx.finish(rule="one recorded history re-evaluated by EvalIndex and replayed", trusted=["TLC", "ctypes driver"])
+
 def run(ctx):
     q = ctx.quick
+    if ctx.replay:
+        return replay_file(ctx)
     # (M) and plan generation run side by side (4 + 7 JVMs)
     with concurrent.futures.ThreadPoolExecutor(2) as ex:
         fm = ex.submit(model_checks, ctx)
